@@ -6,3 +6,10 @@ import HealSparse.Props.C04
 #print axioms HS.C04.lookup_inj
 #print axioms HS.C04.uncovered_reads_sentinel
 #print axioms HS.C04.covered_in_range
+#print axioms HS.C04.file_layout
+#print axioms HS.C04.reachable_wf
+#print axioms HS.C04.reachable_get_wf
+#print axioms HS.C04.reachable_checkInv
+#print axioms HS.C04.reachable_get_checkInv
+#print axioms HS.C04.reachable_get_ok
+#print axioms HS.C04.reachable_file_wf
